@@ -54,7 +54,7 @@ def draw_operator(st, tier, like=None, prefer_k2=False, structured_k3=False):
     n = d0 * d1
     rng = st.nprng()
     cplx = bool(st.draw(2))
-    kind = st.weighted([("density", 4), ("psd", 2), ("projection", 3), ("rank_one", 2), ("indefinite", 2), ("non_hermitian", 1), ("low_rank_psd", 2), ("ppt_edge", 1), ("hermitian_pq", 1), ("diagonal", 2), ("block_diagonal", 2), ("entangled_plus_identity", 1), ("noisy_low_schmidt", 2)])
+    kind = st.weighted([("density", 4), ("psd", 2), ("projection", 3), ("rank_one", 2), ("indefinite", 2), ("non_hermitian", 1), ("low_rank_psd", 2), ("ppt_edge", 1), ("hermitian_pq", 1), ("diagonal", 2), ("block_diagonal", 2), ("entangled_plus_identity", 1), ("noisy_low_schmidt", 2), ("psd_plus_antihermitian", 2)])
     if like is not None and like.get("_want_low_ratio"):
         kind = "entangled_plus_identity"
     if kind == "ppt_edge" and like is not None:
@@ -87,7 +87,7 @@ def draw_operator(st, tier, like=None, prefer_k2=False, structured_k3=False):
         x = (x + x.conj().T) / 2
         effort = st.weighted([(1, 5), (2, 1), (0, 1)])
         dimform = st.weighted([("list", 3), ("scalar", 2)])
-        meta = {"dims": dims, "kind": kind, "family": fam, "parameter": par, "complex": cplx, "k": 1, "effort": effort, "dim_arg": dimform, "target": None}
+        meta = {"dims": dims, "kind": kind, "family": fam, "parameter": par, "complex": cplx, "k": 1, "effort": effort, "dim_arg": dimform, "target": None, "scale": 1.0}
         return x, meta
 
     def gin(r, c):
@@ -151,6 +151,19 @@ def draw_operator(st, tier, like=None, prefer_k2=False, structured_k3=False):
     elif kind == "indefinite":
         g = gin(n, n)
         x = (g + g.conj().T) / 2
+    elif kind == "psd_plus_antihermitian":
+        # X = P + i eps K with P >= 0 and K Hermitian (for real data: P plus a real antisymmetric matrix): not
+        # Hermitian, yet its Hermitian part alone looks like a perfectly good positive operator.  |<v|X|v>| is
+        # then larger than <v|P|v>, so bounds computed from P alone are not bounds for X.
+        r = 2 + st.draw(max(1, n - 1))
+        g = gin(n, min(r, n))
+        pp = g @ g.conj().T
+        pp = pp / np.linalg.norm(pp, 2)
+        kk = gin(n, n)
+        kk = (kk + kk.conj().T) / 2 if cplx else (kk - kk.T) / 2
+        kk = kk / np.linalg.norm(kk, 2)
+        eps = [0.3, 0.5, 0.8, 1.0, 1.5][st.draw(5)]
+        x = pp + (1j * eps * kk if cplx else eps * kk)
     elif kind == "hermitian_pq":
         # |p><q| + |q><p| with p a product vector and q highly entangled: indefinite, far from its absolute value
         a, b = gin(d0, 1), gin(d1, 1)
@@ -187,7 +200,7 @@ def draw_operator(st, tier, like=None, prefer_k2=False, structured_k3=False):
                 x[i * d1:(i + 1) * d1, i * d1:(i + 1) * d1] = g @ g.conj().T
     if prefer_k2 and like is None and min(dims) >= 3:
         k = st.int_range(2, min(dims) - 1)
-        if kind in ("rank_one", "indefinite", "non_hermitian", "hermitian_pq"):
+        if kind in ("rank_one", "indefinite", "non_hermitian", "hermitian_pq", "psd_plus_antihermitian"):
             kind = "density"
             g = gin(n, n)
             x = g @ g.conj().T
@@ -200,10 +213,15 @@ def draw_operator(st, tier, like=None, prefer_k2=False, structured_k3=False):
     dimform = st.weighted([("list", 3), ("scalar", 2), ("omitted", 2)])
     if dimform == "omitted" and int(np.round(np.sqrt(n))) != d0:
         dimform = "scalar"
+    # the same operator in other units: every clause of the property is homogeneous of degree one in X
+    scale = 1.0
+    if st.draw(5) == 0 and like is None:
+        scale = [4e-6, 1e-5, 1e-3, 50.0, 1e4][st.draw(5)]
+        x = x * scale
     target = None
     if st.draw(4) == 0:
         target = float(np.linalg.norm(x, 2) * (0.3 + 0.7 * rng.random()))
-    meta = {"dims": dims, "kind": kind, "complex": cplx, "k": k, "effort": effort, "dim_arg": dimform, "target": target}
+    meta = {"dims": dims, "kind": kind, "complex": cplx, "k": k, "effort": effort, "dim_arg": dimform, "target": target, "scale": scale}
     return x, meta
 
 
@@ -222,11 +240,18 @@ def witnesses(x, k, dims, rng, starts=6, iters=25):
     import scipy.linalg as sla
 
     d0, d1 = dims
-    h = (x + x.conj().T) / 2
+    # |<v|X|v>| = max over phases t of <v| Herm(e^{it} X) |v>: for Hermitian X the two signs suffice, for other
+    # operators a few more rotations are searched (each is a lower bound on the true norm whatever t is)
+    scale = float(np.linalg.norm(x, 2)) or 1.0
+    x = x / scale
+    if np.allclose(x, x.conj().T):
+        rotations = [1.0, -1.0]
+    else:
+        rotations = [np.exp(1j * np.pi * t / 4) for t in range(8)]
     best = 0.0
-    for sgn in (1.0, -1.0):
-        hs = sgn * h
-        for _ in range(starts):
+    for rot in rotations:
+        hs = (rot * x + (rot * x).conj().T) / 2
+        for _ in range(starts if len(rotations) == 2 else max(2, starts // 2)):
             a = rng.standard_normal((d0, k)) + 1j * rng.standard_normal((d0, k))
             b = rng.standard_normal((d1, k)) + 1j * rng.standard_normal((d1, k))
             val = None
@@ -275,11 +300,15 @@ def witnesses(x, k, dims, rng, starts=6, iters=25):
         wa = np.kron(rng.standard_normal(d0) + 1j * rng.standard_normal(d0), rng.standard_normal(d1) + 1j * rng.standard_normal(d1))
         va, wa = va / np.linalg.norm(va), wa / np.linalg.norm(wa)
         best = max(best, abs(complex(wa.conj() @ x @ va)))
-    return best
+    return best * scale
 
 
 class Subject:
     pass
+
+
+def _scaled(v, c):
+    return None if v is None else v * c
 
 
 def make_subject(cs, res, tier, stream, like=None, prefer_k2=False, structured_k3=False):
@@ -309,14 +338,15 @@ def make_subject(cs, res, tier, stream, like=None, prefer_k2=False, structured_k
     if k >= min(dims):
         sub.exact = ("k_ge_min_dim", sub.opn)
     elif meta["kind"] == "entangled_plus_identity":
-        c = float(np.real(np.trace(x)) - 1) / x.shape[0]
-        sub.exact_value = k / min(dims) + c  # reference for the witness search and the bracket
+        sc = meta.get("scale", 1.0)
+        c = float(np.real(np.trace(x)) / sc - 1) / x.shape[0]
+        sub.exact_value = sc * (k / min(dims) + c)  # reference for the witness search and the bracket
     elif sub.rank == 1:
         u, sv, vh = np.linalg.svd(x)
         sub.exact = ("rank_one", float(sv[0]) * sk_vec_norm(u[:, 0], k, dims) * sk_vec_norm(vh[0, :].conj(), k, dims))
     wrng = cs.s("witness:" + stream).nprng()
     sub.wit = witnesses(x, min(k, min(dims)), dims, wrng) if k < min(dims) else sub.opn
-    sub.psd = sub.herm and float(np.linalg.eigvalsh((x + x.conj().T) / 2)[0]) >= -1e-8 * max(sub.opn, 1)
+    sub.psd = sub.herm and float(np.linalg.eigvalsh((x + x.conj().T) / 2)[0]) >= -1e-8 * sub.opn
     if meta["target"] is not None:
         # place the target where the early exits are: just below a value the search can attain (proved by
         # the randomised stage, the call leaves from inside the restart loop), just above it, or anywhere
@@ -340,13 +370,13 @@ def make_subject(cs, res, tier, stream, like=None, prefer_k2=False, structured_k
         small = min(dims)
         cost = max(dims) * small * (small + 1) // 2
         if sub.psd and k == 1 and cost <= (40 if tier == "thorough" else 24) and (meta["kind"] == "ppt_edge" or gate == 0):
-            sub.own_upper = ("dps2", models.sk1_dps2_upper(x, dims))
-        elif not sub.psd and dims[0] * dims[1] <= 16 and (meta["kind"] in ("hermitian_pq", "indefinite") or gate == 0):
-            sub.own_upper = ("bilinear", models.sk_bilinear_upper(x, k, dims))
+            sub.own_upper = ("dps2", _scaled(models.sk1_dps2_upper(x / sub.opn, dims), sub.opn))
+        elif not sub.psd and dims[0] * dims[1] <= 16 and (meta["kind"] in ("hermitian_pq", "indefinite", "psd_plus_antihermitian") or gate == 0):
+            sub.own_upper = ("bilinear", _scaled(models.sk_bilinear_upper(x / sub.opn, k, dims), sub.opn))
         elif sub.psd and dims[0] * dims[1] <= 16 and gate == 1:
             # PSD with k >= 2 (or k = 1 where the extension would be too large): own implementation of the
             # k-positivity / PPT outer approximation - bites when the library stops before its own SDP stage
-            sub.own_upper = ("bilinear", models.sk_bilinear_upper(x, k, dims))
+            sub.own_upper = ("bilinear", _scaled(models.sk_bilinear_upper(x / sub.opn, k, dims), sub.opn))
         if sub.own_upper is not None and sub.own_upper[1] is None:
             res.failed("model:" + sub.own_upper[0] + "_sdp")
             sub.own_upper = None
@@ -445,15 +475,16 @@ def run(cs, tier, run_index):
                 res.violate("C14.sk.exact", regime="entangled_plus_identity", lower=lo, upper=up, reference=sub.known, rng_seed=seed, call_index=i, **meta)
         if sub.own_upper is not None:
             res.checks_sim += 1
-            res.margin("lower_minus_own_upper:" + sub.own_upper[0], (lo - sub.own_upper[1]) / (slack + 1e-5 * max(opn, 1)))
-            if lo > sub.own_upper[1] + slack + 1e-5 * max(opn, 1):
+            res.margin("lower_minus_own_upper:" + sub.own_upper[0], (lo - sub.own_upper[1]) / (slack + 1e-5 * opn))
+            if lo > sub.own_upper[1] + slack + 1e-5 * opn:
                 res.violate("C14.sk.lower_valid", lower=lo, own_upper_bound_on_true_norm=sub.own_upper[1], method=sub.own_upper[0], upper=up, witness=sub.wit, op_norm=opn, rng_seed=seed, call_index=i, **meta)
-            if sub.wit > sub.own_upper[1] + slack + 1e-5 * max(opn, 1):
+            if sub.wit > sub.own_upper[1] + slack + 1e-5 * opn:
                 raise AssertionError("reference models disagree: witness %r above own upper bound %r" % (sub.wit, sub.own_upper[1]))
         if sub.exact is not None:
             res.probe("exact_regime:" + sub.exact[0])
             res.checks_sim += 1
-            if abs(lo - sub.exact[1]) > 1e-7 * max(opn, 1) or abs(up - sub.exact[1]) > 1e-7 * max(opn, 1):
+            etol = 1e-7 * (max(opn, 1) if sub.meta.get("scale", 1.0) == 1.0 else opn)
+            if abs(lo - sub.exact[1]) > etol or abs(up - sub.exact[1]) > etol:
                 res.violate("C14.sk.exact", regime=sub.exact[0], lower=lo, upper=up, reference=sub.exact[1], **meta)
         elif sub.trans_exact:
             res.probe("exact_regime:transpose_exact")
